@@ -45,6 +45,7 @@ func (impl Implementation) Dsyev(jobz lapack.EVJob, uplo blas.Uplo, n int, a []f
 
 	// Quick return if possible.
 	if n == 0 {
+		work[0] = 1
 		return true
 	}
 
